@@ -186,7 +186,7 @@ func scenarioC02(r *Run) {
 	}
 	spies := acceptingVerifiers(pm, keysOf(spec))
 	verr := r.VerifyLib(rc, external, asVerifiers(spies)...)
-	r.Logf("verify: %v", verr)
+	r.Logf("verify: %s", errTag(verr))
 	compared := 0
 	for i, s := range spies {
 		for j, c := range s.Calls {
